@@ -1480,3 +1480,21 @@ for _i, (_cell, _kind, _it, _tm) in enumerate(_EKGRID):
                                                                       ("quadrilateral", "P1xDG0", "linear"), ("triangle", "MINI", "jump"), ("interval", "P1xDG0", "bilinear"),
                                                                       ("triangle", "sym", "linear"))) else ""
     reg(f"ek_{_cell}_{_kind}_{_it}_{_tm}", f"{_tag} c08 c19 ek{_q}", itypes=(_it,))(_mk)
+
+
+# ---- several meshes in one form (per-integral coordinate element / cell tag) ---------------------
+
+@reg("multi_mesh_P1P2_triangle", "c06 c01 q", itypes=("cell", "exterior_facet"))
+def _():
+    m1, m2 = mesh("triangle"), mesh("triangle", gdeg=2)
+    V = space(m1)
+    u, v = TrialFunction(V), TestFunction(V)
+    return u * v * dx(domain=m1) + 2.0 * u * v * dx(7, domain=m2) + 3.0 * u * v * ds(domain=m2)
+
+
+@reg("multi_mesh_P2P1_functional", "c06 c01 q", itypes=("cell", "exterior_facet"))
+def _():
+    m1, m2 = mesh("triangle", gdeg=2), mesh("triangle")
+    f = ufl.Coefficient(space(m1, "DG", 1))
+    x2 = ufl.SpatialCoordinate(m2)
+    return f * dx(domain=m1) + f * f * ds(3, domain=m1) + x2[0] * f * dx(5, domain=m2)
